@@ -275,6 +275,26 @@ func addContentHashesToEvent(eventJSON []byte) ([]byte, error) {
 	return json.Marshal(event)
 }
 
+// checkUniqueTopLevelKeys refuses an event whose top-level object names a member more than
+// once (the names compared as strings, i.e. after unescaping).
+func checkUniqueTopLevelKeys(eventJSON []byte) error {
+	seen := make(map[string]struct{}, 16)
+	var dup *string
+	gjson.ParseBytes(eventJSON).ForEach(func(key, _ gjson.Result) bool {
+		name := key.String()
+		if _, ok := seen[name]; ok {
+			dup = &name
+			return false
+		}
+		seen[name] = struct{}{}
+		return true
+	})
+	if dup != nil {
+		return fmt.Errorf("gomatrixserverlib: event has more than one top-level %q key", *dup)
+	}
+	return nil
+}
+
 // checkEventContentHash checks if the unredacted content of the event matches the SHA-256 hash under the "hashes" key.
 // Assumes that eventJSON has been canonicalised already.
 func checkEventContentHash(eventJSON []byte) error {
